@@ -59,7 +59,7 @@ def gen_cases(tier, seed):
                 shp = [[7, 2, 2, 3], [2, 2, 3, 7], [2, 2, 2, 2, 3], [3, 2, 2, 2, 2], [2, 6, 2, 2]][int(rng.integers(0, 5))]
             yield {"w": "tensor", "loss": name, "par": par, "mdom": mdom, "ddom": ddom, "shape": shp,
                    "R": int(rng.integers(1, 4)), "lam": ["unit", "unit", "nonunit", "unit", "mixed"][int(rng.integers(0, 5))],
-                   "wk": ["none", "mask", "real"][int(rng.integers(0, 3))], "sample": ["once", "shuffled", "repeats"][i % 3],
+                   "wk": ["none", "mask", "real", "signed"][int(rng.integers(0, 4))], "sample": ["once", "shuffled", "repeats"][i % 3],
                    "sparse_data": bool(rng.integers(0, 2)), "cseed": int(seed) * 373587883 + next(cs)}
 
 
@@ -171,6 +171,9 @@ def run_case(case, ctx):
         W = (rng.random(shape) < 0.7).astype(float)
     elif case["wk"] == "real":
         W = rng.uniform(0.2, 3.0, size=shape)
+    elif case["wk"] == "signed":
+        # weights of either sign (the objective is the weighted sum whatever the sign), some exactly zero
+        W = rng.uniform(0.2, 3.0, size=shape) * rng.choice([-1.0, 1.0, 1.0], size=shape) * (rng.random(shape) < 0.9)
     with np.errstate(all="ignore"):
         L = np.asarray(fh(Xd, Md), dtype=float)
     Fref = float(np.sum(L if W is None else L * W))
@@ -356,6 +359,19 @@ def run_case(case, ctx):
             vals = np.concatenate([np.repeat(Xs[tuple(pos.T)], a), np.zeros(allsubs.shape[0] * b)])
             wts = np.concatenate([np.full(len(pos) * a, 1.0 / a), np.full(allsubs.shape[0] * b, 1.0 / b)])
             crng = np.arange(len(pos) * a)
+            zero_w = bool(rng.integers(0, 2))
+            if zero_w:
+                # samples that carry the weight 0 (a 0/1 selection laid over the sample) contribute nothing, wherever they sit: here in
+                # front of and between the corrected draws
+                nz_ = int(rng.integers(1, 4))
+                at = np.sort(rng.integers(0, len(crng) + 1, size=nz_))
+                extra = allsubs[rng.integers(0, len(allsubs), size=nz_)]
+                subs = np.insert(subs, at, extra, axis=0)
+                vals = np.insert(vals, at, Xs[tuple(extra.T)])
+                wts = np.insert(wts, at, 0.0)
+                flag = np.insert(np.concatenate([np.ones(len(crng), dtype=bool), np.zeros(len(wts) - nz_ - len(crng), dtype=bool)]), at, False)
+                crng = np.flatnonzero(flag)
+            ctx.feat(zero_weight_samples=zero_w)
             re = ctx.call("estimate", estimate, M, subs.copy(), vals.copy(), wts.copy(), fh, gh, False, crng.copy())
             if not re.ok:
                 ctx.check(False, "estimate", "RAISE:" + type(re.exc).__name__, f"{type(re.exc).__name__}: {re.exc} | {re.tb}", semistrat=True)
